@@ -11,14 +11,14 @@ Proof. destruct v; try discriminate; reflexivity. Qed.
 
 (* print: exactly the text and one newline are appended to the output, nothing is read, result is nil *)
 Theorem print_spec n ip h w s :
-  exec (S (S n)) ip h w (VIO (IOPrint s)) = Done h {| w_in := w_in w; w_out := w_out w ++ s ++ [10%N] |} (inl VNil) 0.
+  exec (S (S n)) ip h w (VIO (IOPrint s)) = Done h (with_io w (w_in w) (w_out w ++ s ++ [10%N])) (inl VNil) 0.
 Proof. reflexivity. Qed.
 (* input: consumes exactly one line, or yields nil at end of input and consumes nothing *)
 Theorem read_line_spec n ip h w l r : w_in w = l :: r ->
-  exec (S (S n)) ip h w (VIO IOInput) = Done h {| w_in := r; w_out := w_out w |} (inl (VStr l)) 0.
-Proof. intros E. unfold exec. cbn [bs doio_body bind run force]. rewrite E. reflexivity. Qed.
+  exec (S (S n)) ip h w (VIO IOInput) = Done h (with_io w r (w_out w)) (inl (VStr l)) 0.
+Proof. intros E. unfold exec. cbn [bs doio_body bind run force wstep]. rewrite E. reflexivity. Qed.
 Theorem read_eof_spec n ip h w : w_in w = [] -> exec (S (S n)) ip h w (VIO IOInput) = Done h w (inl VNil) 0.
-Proof. intros E. unfold exec. cbn [bs doio_body bind run force]. rewrite E. reflexivity. Qed.
+Proof. intros E. unfold exec. cbn [bs doio_body bind run force wstep]. rewrite E. reflexivity. Qed.
 (* return: no effect at all *)
 Theorem return_spec n ip h w v : isthunk v = false -> is_io v = false ->
   exec (S (S n)) ip h w (VIO (IOReturn v)) = Done h w (inl v) 0.
